@@ -174,7 +174,7 @@ type want struct {
 // usage report trigger bit for a reporting-trigger cause (same name), 0 if none
 var causeToUsage = map[uint32]uint32{
 	1 << 0: 1 << 0, 1 << 1: 1 << 1, 1 << 2: 1 << 2, 1 << 3: 1 << 3, 1 << 4: 1 << 4, 1 << 5: 1 << 5, 1 << 6: 1 << 6, // PERIO VOLTH TIMTH QUHTI START STOPT DROTH
-	1 << 7: 1 << 10, // LIUSA
+	1 << 7: 1 << 10,                // LIUSA
 	1 << 8: 1 << 8, 1 << 9: 1 << 9, // VOLQU TIMQU
 	1 << 10: 1 << 13, 1 << 11: 1 << 14, 1 << 12: 1 << 15, 1 << 13: 1 << 16, // ENVCL MACAR EVETH EVEQU
 	1 << 14: 1 << 18, 1 << 15: 1 << 19, // IPMJL QUVTI
